@@ -346,6 +346,34 @@ FLEET['G12'] = dict(
     prefer_no_skip_ws=True,
 )
 
+
+# error rules nested at two levels WITH a shift/reduce conflict on the error symbol: after '{' the state holds both
+# block -> '{' . error '}' (shift) and stmts -> . (reduce, lookahead error); the documented default (equal precedence,
+# no associativity) prefers the shift
+FLEET['G13'] = dict(
+    terms=[
+        ('x', T('char', 'x')),
+        ('semi', T('char', ';')),
+        ('lb', T('char', '{')),
+        ('rb', T('char', '}')),
+        ('y', T('char', 'y')),
+    ],
+    nterms=['prog', 'blocks', 'block', 'stmts', 'stmt'],
+    root='prog',
+    rules=[
+        ('stmt', ['x', 'semi'], 'plain'),
+        ('prog', ['blocks'], 'default'),
+        ('block', ['lb', 'stmts', 'rb'], 'plain'),
+        ('stmts', [], 'plain'),
+        ('blocks', [], 'plain'),
+        ('block', ['lb', 'error', 'rb'], 'plain'),
+        ('stmts', ['stmts', 'stmt'], 'plain'),
+        ('blocks', ['blocks', 'block'], 'plain'),
+        ('stmt', ['error', 'semi'], 'ctx'),
+    ],
+    values=['node', 'mnode'],
+)
+
 # standalone regex matchers (regex::expr<P>)
 REGEXES = {
     'R1': 'ab*c',
